@@ -399,7 +399,7 @@ def monitor_c03(comp, model):
             break
     for b in model.order:
         best = hjmodel.best_of(model.cards[b], model.heights)
-        if obs['best'][b] != (best if best is not None else 0):
+        if obs['best'][b] != (hnum(best) if best is not None else 0):
             out.append(('C03:best-is-not-greatest-height-cleared', None,
                         'athlete %s best %r, greatest height cleared on the card %r' % (b, obs['best'][b], best)))
             break
@@ -812,3 +812,110 @@ def tied_enumerate(n, R, J):
     tot['single_cards'] = len(cards)
     tot['distinct_outcomes'] = len(outcomes)
     return tot, viol
+
+
+# ------------------------------------------------------------------------------------------------
+# long real competitions: every prefix of the legal history x every single deviating call (C02 beyond the BFS bound)
+
+def long_history(card):
+    """round-robin call list for a result card (explicit pass calls for '-' marks)"""
+    from decimal import Decimal as D
+    calls = [('add', b) for b, _ in card['cards']]
+    for hi, h in enumerate(card['heights']):
+        calls.append(('bar', D(h)))
+        for a in range(3):
+            for b, cs in card['cards']:
+                s = cs[hi] if hi < len(cs) else ''
+                if len(s) > a:
+                    calls.append((s[a], b))
+    return calls
+
+
+def _apply_long(comp, call, order):
+    kind, arg = call
+    GuardedLog.armed = True
+    try:
+        if kind == 'add':
+            comp.add_jumper(bib=arg, order=order.get(arg, len(order) + 1))
+        elif kind == 'bar':
+            comp.set_bar_height(arg)
+        else:
+            getattr(comp, LETTER[kind])(arg)
+        return None
+    except Exception as e:     # noqa
+        return e
+    finally:
+        GuardedLog.armed = False
+
+
+def probe_long(name, card):
+    """returns (stats, violations): at every prefix of the legal history every alphabet call is tried once on a clone"""
+    from decimal import Decimal as D
+    RuleViolation = RV()
+    calls = long_history(card)
+    order = {b: i + 1 for i, (b, _) in enumerate(card['cards'])}
+    comp, model = new_comp(), Model()
+    viol = []
+    st = dict(prefixes=0, probes=0, accepted=0, refused=0, lockstep=0)
+    hist = []
+    for step in range(len(calls) + 1):
+        st['prefixes'] += 1
+        pick = pickle.dumps(comp, 4)
+        repick = pickle.dumps(pickle.loads(pick), 4)
+        last = model.heights[-1] if model.heights else D(0)
+        A = [('add', 'ZZ')] + ([('add', model.order[0])] if model.order else [])
+        A += [('bar', last + D('0.01')), ('bar', last), ('bar', last - D('0.01'))]
+        for b in model.order:
+            for k in 'ox-r':
+                A.append((k, b))
+        core = model.irregular == 0
+        for call in A:
+            st['probes'] += 1
+            c2 = pickle.loads(pick)
+            err = _apply_long(c2, call, order)
+            allowed = model.allowed(call)
+            where = hist + [call]
+            if err is not None:
+                st['refused'] += 1
+                if not isinstance(err, RuleViolation):
+                    viol.append(('U1:refusal-is-%s' % type(err).__name__, where, 'raised %r' % (err,)))
+                if pickle.dumps(c2, 4) != repick:
+                    d = _first_diff(internal(pickle.loads(pick), with_log=True), internal(c2, with_log=True))
+                    viol.append(('U2:refused-call-changed-state:%s' % d[0], where, 'refused call (%s) changed %s: %r -> %r' % (err, d[0], d[1], d[2])))
+                if core and allowed is True:
+                    viol.append(('U5:allowed-call-refused:%s' % _callclass(call, model), where, 'refused: %s' % err))
+            else:
+                st['accepted'] += 1
+                why = universal_accept_ok(model, call)
+                if why:
+                    viol.append(('U4:forbidden-call-accepted:%s' % why, where, why))
+                elif core and allowed is False:
+                    viol.append(('U5:forbidden-call-accepted:%s' % _callclass(call, model), where, 'accepted in phase %s' % model.phase))
+                if RANK.get(c2.state, -1) < RANK.get(comp.state, -1):
+                    viol.append(('U3:state-went-backwards:%s->%s' % (comp.state, c2.state), where, ''))
+                m2 = model.clone()
+                m2.step(call, c2.state)
+                if m2.irregular == 0:
+                    st['lockstep'] += 1
+                    if c2.state != m2.phase:
+                        viol.append(('U5:phase-differs:%s-vs-model-%s' % (c2.state, m2.phase), where, 'implementation %s, rules %s' % (c2.state, m2.phase)))
+                    for sig, _, msg in monitor_c03(c2, m2):
+                        viol.append((sig, where, msg))
+        if step == len(calls):
+            break
+        call = calls[step]
+        err = _apply_long(comp, call, order)
+        hist.append(call)
+        if err is not None:
+            viol.append(('long:legal-history-refused', list(hist), 'call %r of the real competition %s was refused: %s' % (call, name, err)))
+            break
+        model.step(call, comp.state)
+        if model.irregular == 0 and comp.state != model.phase:
+            viol.append(('U5:phase-differs:%s-vs-model-%s' % (comp.state, model.phase), list(hist), 'on the legal history of %s' % name))
+            break
+        for sig, _, msg in monitor_c03(comp, model) + monitor_c08(comp, model):
+            viol.append((sig, list(hist), msg))
+    if GuardedLog.reads:
+        raise HarnessError('a transition read the action log')
+    st['final_state'] = comp.state
+    return st, viol
